@@ -547,7 +547,7 @@ func cmdCheck(args []string) int {
 			for _, ps := range byPkg[pkg] {
 				cases = append(cases, sym.NativeCase{Harness: ps.Harness, Args: ps.Args, Values: sym.ValuesOf(ps.Inputs)})
 			}
-			outs, err := runner.Run(pkg, cases, false, 120*time.Second)
+			outs, err := runner.Run(pkg, cases, false, 600*time.Second)
 			if err != nil {
 				inconclusive = append(inconclusive, "translator validation could not run natively: "+firstLine(err.Error()))
 				replayNotes = append(replayNotes, err.Error())
@@ -749,7 +749,7 @@ func showInputs(in []sym.Input) string {
 func replayViolation(runner *sym.NativeRunner, prog *sym.Program, v *sym.Violation) (bool, string) {
 	pkg := v.Harness[:strings.LastIndex(v.Harness, ".")]
 	race := v.Kind == "race"
-	to := 60 * time.Second
+	to := 180 * time.Second
 	if v.Kind == "deadlock" {
 		to = 20 * time.Second // the native run is expected to hang: go test's own deadline is the oracle
 	}
@@ -761,7 +761,7 @@ func replayViolation(runner *sym.NativeRunner, prog *sym.Program, v *sym.Violati
 	if v.Threads && v.Kind == "deadlock" {
 		// schedule-dependent deadlock: the cooperative scheduler reports a thread that spins forever on a mutex
 		sched = 300
-		to = 60 * time.Second
+		to = 120 * time.Second
 	}
 	outs, err := runner.RunSched(pkg, []sym.NativeCase{{Harness: v.Harness, Args: v.Args, Values: sym.ValuesOf(v.Inputs)}}, race, to, sched)
 	if err != nil {
